@@ -64,8 +64,13 @@ def _judge(P, rows):
             except Exception as e:  # noqa
                 vios.append(Violation(f"{P.PID}/harness/decode", f"decode error {e!r} on {zs[:40]}", case=c, impl=out))
                 continue
-        for sig, what, oracle in P.compare(c, out, model):
-            vios.append(Violation(sig, what, case=c, impl=out, model=model, oracle=oracle))
+        for item in P.compare(c, out, model):
+            sig, what, oracle = item[:3]
+            kind = item[3] if len(item) > 3 else "property"
+            w = Violation(sig, what, case=c, impl=out, model=model, oracle=oracle,
+                          found_input=(kind == "property"))
+            w.kind = kind
+            vios.append(w)
         for k in P.tags(c, out, model):
             hist[k] = hist.get(k, 0) + 1
         if P.nontrivial(c, out, model):
@@ -91,7 +96,7 @@ def _shrink(P, v: Violation, budget=40):
         for row in rows:
             vs, _, _, _ = _judge(P, [row])
             for w in vs:
-                if w.signature == cur.signature:
+                if w.signature == cur.signature and w.found_input == cur.found_input:
                     nxt = w
                     break
             if nxt:
@@ -112,76 +117,52 @@ def run_check(pid: str, tier: str, seed: int, replay: str | None = None) -> int:
     checker_cmds = []
 
     # ---- 1. build + obligations ------------------------------------------------
-    ok, log = core.coq_build_theories()
-    checker_cmds.append(f"make -C coq -j{core.NPROC} (coq_makefile, full .vo build)")
-    if not ok:
-        broken.append(Violation(f"{pid}/obligation/theories-build", "coq theories do not build",
-                                obligation={"file": "coq/theories", "coqc_error": log[-3000:]}, found_input=False))
-    bad = core.forbidden_scan() + core.section_scan()
-    obligations.append(("no-admitted-no-axiom-scan", not bad, "; ".join(bad[:5])))
-    if bad:
-        broken.append(Violation(f"{pid}/obligation/forbidden-construct", "forbidden construct in the development",
-                                obligation={"lines": bad[:20]}, found_input=False))
-
-    gen_dir = core.COQ / "gen"
-    gen_dir.mkdir(exist_ok=True)
-    if ok:
-        with core.BuildLock():
-            for tname in getattr(P, "TRANSLATORS", []):
-                tmod = importlib.import_module(f"translators.{tname}")
-                try:
-                    outputs = tmod.translate(core.REPO)     # dict filename -> text
-                    terr = None
-                except Exception as e:  # fail closed
-                    outputs, terr = {}, f"{type(e).__name__}: {e}"
-                if terr:
-                    obligations.append((f"translator:{tname}", False, terr))
-                    broken.append(Violation(f"{pid}/obligation/translator/{tname}",
-                                            f"translator {tname} cannot translate the current source: {terr}",
-                                            obligation={"translator": tname, "error": terr}, found_input=False))
-                    continue
-                for fname, text in outputs.items():
-                    f = gen_dir / fname
-                    if not f.exists() or f.read_text() != text or not f.with_suffix(".vo").exists():
-                        f.write_text(text)
-                    okc, outc = core.coq_compile(f)
-                    checker_cmds.append(f"coqc {' '.join(core.COQ_FLAGS[:6])} gen/{fname}")
-                    names = core.theorem_names(f)
-                    blocks = core.parse_assumptions(outc)
-                    if not okc:
-                        obligations.append((f"gen:{fname}", False, outc[-1500:]))
-                        broken.append(Violation(f"{pid}/obligation/gen/{fname}",
-                                                f"generated fragment {fname} no longer satisfies its obligation",
-                                                obligation={"file": f"coq/gen/{fname}", "coqc_error": outc[-3000:]},
-                                                found_input=False))
-                    else:
-                        obligations.append((f"gen:{fname}", True, ""))
-                        for n, b in zip(names, blocks):
-                            good = b == "closed" or (isinstance(b, list) and set(b) <= core.ALLOWED_AXIOMS)
-                            obligations.append((f"gen:{fname}:{n}", good, "" if good else f"axioms {b}"))
-                            if not good:
-                                broken.append(Violation(f"{pid}/obligation/axioms/{n}", f"{n} depends on axioms {b}",
-                                                        obligation={"theorem": n, "axioms": b}, found_input=False))
-            for pf in P.PROPS_FILES:
-                f = core.COQ / pf
-                okc, outc = core.coq_compile(f)
-                checker_cmds.append(f"coqc {' '.join(core.COQ_FLAGS[:6])} {pf}")
-                names = core.theorem_names(f)
-                blocks = core.parse_assumptions(outc)
-                if not okc or len(blocks) != len(names):
-                    obligations.append((pf, False, outc[-1500:]))
-                    for n in names:
-                        obligations.append((f"{pf}:{n}", False, "file did not compile"))
-                    broken.append(Violation(f"{pid}/obligation/{pf}", f"theorem file {pf} no longer compiles",
-                                            obligation={"file": f"coq/{pf}", "theorems": names,
-                                                        "coqc_error": outc[-3000:]}, found_input=False))
-                else:
-                    for n, b in zip(names, blocks):
-                        good = b == "closed" or (isinstance(b, list) and set(b) <= core.ALLOWED_AXIOMS)
-                        obligations.append((f"{pf}:{n}", good, "" if good else f"axioms {b}"))
-                        if not good:
-                            broken.append(Violation(f"{pid}/obligation/axioms/{n}", f"{n} depends on axioms {b}",
-                                                    obligation={"theorem": n, "axioms": b}, found_input=False))
+    with core.BuildLock():
+        failures = core.regen_sources()
+        for tname in getattr(P, "TRANSLATORS", []):
+            terr = failures.get(tname)
+            obligations.append((f"translator:{tname}", terr is None, terr or ""))
+            if terr:
+                broken.append(Violation(f"{pid}/obligation/translator/{tname}",
+                                        f"translator {tname} cannot translate the current source: {terr}",
+                                        obligation={"translator": tname, "error": terr}, found_input=False))
+        ok, log = core.coq_make(list(getattr(P, "VO", [])))
+        checker_cmds.append(f"coq_makefile -f _CoqProject -o Makefile; make -C coq -j{core.NPROC} "
+                            f"{' '.join(getattr(P, 'VO', []))} (full .vo build, no -vos)")
+        if not ok:
+            broken.append(Violation(f"{pid}/obligation/theories-build", "coq model files do not build",
+                                    obligation={"file": "coq/theories", "coqc_error": log[-3000:]},
+                                    found_input=False))
+        bad = core.forbidden_scan() + core.section_scan()
+        obligations.append(("no-admitted-no-axiom-scan", not bad, "; ".join(bad[:5])))
+        if bad:
+            broken.append(Violation(f"{pid}/obligation/forbidden-construct",
+                                    "forbidden construct in the development",
+                                    obligation={"lines": bad[:20]}, found_input=False))
+        for pf in P.PROPS_FILES:
+            f = core.COQ / pf
+            vo = f.with_suffix(".vo")
+            if vo.exists():
+                vo.unlink()
+            okc, outc = core.coq_make([pf[:-2] + ".vo"])
+            checker_cmds.append(f"make -C coq {pf[:-2]}.vo  # coqc on {pf} and everything it depends on, "
+                                f"incl. regenerated gen/*.v")
+            names = core.theorem_names(f)
+            blocks = core.parse_assumptions(outc)
+            if not okc or len(blocks) != len(names):
+                obligations.append((pf, False, outc[-1500:]))
+                for n in names:
+                    obligations.append((f"{pf}:{n}", False, "file did not compile"))
+                broken.append(Violation(f"{pid}/obligation/{pf}", f"theorem file {pf} no longer compiles",
+                                        obligation={"file": f"coq/{pf}", "theorems": names,
+                                                    "coqc_error": outc[-3000:]}, found_input=False))
+            else:
+                for n, b in zip(names, blocks):
+                    good = b == "closed" or (isinstance(b, list) and set(b) <= core.ALLOWED_AXIOMS)
+                    obligations.append((f"{pf}:{n}", good, "" if good else f"axioms {b}"))
+                    if not good:
+                        broken.append(Violation(f"{pid}/obligation/axioms/{n}", f"{n} depends on axioms {b}",
+                                                obligation={"theorem": n, "axioms": b}, found_input=False))
 
     # ---- 2/3. corpus + correspondence --------------------------------------------
     if replay:
@@ -207,8 +188,9 @@ def run_check(pid: str, tier: str, seed: int, replay: str | None = None) -> int:
 
     # ---- 4. search when an obligation broke and nothing differed yet --------------
     searched = 0
-    if broken and not vios and ok and not replay and hasattr(P, "cases"):
-        extra = P.cases("thorough" if tier == "quick" else "thorough", seed + 1)
+    if broken and not any(v.found_input for v in vios) and ok and not replay and hasattr(P, "cases") \
+            and tier == "quick":
+        extra = P.cases("thorough", seed + 1)
         extra = extra[: getattr(P, "SEARCH_CAP", 4000)]
         searched = len(extra)
         rows2, _ = _eval_cases(P, extra, tag="search")
@@ -222,19 +204,27 @@ def run_check(pid: str, tier: str, seed: int, replay: str | None = None) -> int:
     reported = 0
     known_hit = []
     lines = []
+    have_input = any(v.found_input for v in vios if v.signature not in known_sigs)
     for sig, vs in by_sig.items():
         v = vs[0]
         if sig in known_sigs:
             known_hit.append(sig)
             lines.append(f"KNOWN-FINDING: property={pid} {known_sigs[sig]['what']} [{sig}; {len(vs)} case(s)]")
             continue
+        if not v.found_input and have_input:
+            lines.append(f"# also: correspondence broken: {sig}: {v.what} ({len(vs)} case(s))")
+            continue
         if not replay and "/harness/" not in sig:
             v = _shrink(P, v)
         rp = core.write_replay(pid, v, seed)
         lines.append(f"# {sig}: {v.what} ({len(vs)} case(s))")
-        lines.append(f"VIOLATION property={pid} replay={rp.relative_to(core.VERIF)}")
+        if v.found_input:
+            lines.append(f"VIOLATION property={pid} replay={rp.relative_to(core.VERIF)}")
+        else:
+            # model and implementation disagree on this input but the property's own oracle holds there
+            lines.append(f"VIOLATION property={pid} replay={rp.relative_to(core.VERIF)} no-failing-input-found")
         reported += 1
-    if broken and reported == 0:
+    if broken and not have_input:
         # property no longer shown to hold, no failing input found
         for b in broken:
             b.case = None
